@@ -2,8 +2,7 @@
   C02 — Search returns exactly the matching objects, for every operator and field.
   Property theorems only; the lemmas are in Proofs/FieldIndex.lean and Proofs/ObjIndex.lean.
 -/
-import Proofs.ObjIndex
-import SodModel.Search
+import Proofs.SearchColl
 namespace Sod.Props
 open Sod
 
@@ -74,5 +73,63 @@ example : Desc [(Val.i64 5, 1), (Val.i64 3, 2), (Val.i64 3, 4), (Val.i64 1, 3)] 
 example : ObjIndex.searchOp none .ge [(Val.i64 5, 1), (Val.i64 3, 2), (Val.i64 3, 4), (Val.i64 1, 3)] (Val.i64 2)
     = .ok [(Val.i64 5, 1), (Val.i64 3, 2), (Val.i64 3, 4)] := by
   rw [C02_index_exact none .ge (by decide) _ _ (by unfold Desc; decide)]; decide
+
+/-! ### the whole path `DB.Search` / `Search.And` / `Search.Or` / `Search.Delete` on a collection
+
+`Matches c m op pos v u`: the object stored under `u` has a leaf at `pos` satisfying `op v`.
+`Denotes l fs u`: some entry of the result designates `u`. -/
+
+/-- indexed field: exactly the matching objects, each once, in non-increasing order; the
+    collection is unchanged -/
+theorem C02_search_indexed {E : Env} {c : Coll} {l : Loaded} {field : String} {fi : FieldIdx} {op : Op} {probe : Leaf} {pv : Val}
+    (h : Inv' c l) (hi : l.index.field? field = some fi) (hr : pathResolvable c.live field = true)
+    (hp : E.prepare l.descs field probe = Leaf.v pv) (ht : pv.tag = fi.cast) (hop : op ≠ Op.re) :
+    ∃ s, Coll.search E c field (some op) probe none = (c, s) ∧ s.err = none ∧
+      (∀ e ∈ s.fields, ∃ u, l.index.uuidOf e.snd = some u ∧ Matches c (fun _ => false) op fi.pos pv u) ∧
+      (∀ u, Matches c (fun _ => false) op fi.pos pv u → ∃ e ∈ s.fields, l.index.uuidOf e.snd = some u) ∧
+      Desc s.fields ∧ (s.fields.map (·.snd)).Nodup :=
+  let ⟨s, h1, h2, _, h4, h5, h6, h7⟩ := search_indexed_exact h hi hr hp ht hop
+  ⟨s, h1, h2, h4, h5, h6, h7⟩
+
+/-- unindexed field: the scan returns exactly the matching objects, each once; what the
+    collection denotes and its directory are unchanged -/
+theorem C02_search_unindexed {E : Env} {c : Coll} {l : Loaded} {field : String} {op : Op} {probe : Leaf} {pv : Val}
+    {pos : Nat} {d : FieldDesc} (h : Inv' c l) (hi : l.index.field? field = none)
+    (hr : pathResolvable c.live field = true) (hp : E.prepare l.descs field probe = Leaf.v pv)
+    (hd : descPos? l.descs field = some (pos, d)) (hc : d.cast = some pv.tag) (hop : op ≠ Op.re)
+    (hty : ∀ u o, c.view u = some o → ∃ x, o.field pos = Leaf.v x) :
+    ∃ c' s, Coll.search E c field (some op) probe none = (c', s) ∧ s.err = none ∧ c'.view = c.view ∧ c'.disk = c.disk ∧
+      (∀ e ∈ s.fields, ∃ u, l.index.uuidOf e.snd = some u ∧ Matches c (fun _ => false) op pos pv u) ∧
+      (∀ u, Matches c (fun _ => false) op pos pv u → ∃ e ∈ s.fields, l.index.uuidOf e.snd = some u) ∧
+      (s.fields.map (·.snd)).Nodup :=
+  let ⟨c', s, h1, h2, _, h4, h5, h6, h7, h8, _⟩ := search_unindexed_exact h hi hr hp hd hc hop hty
+  ⟨c', s, h1, h2, h4, h5, h6, h7, h8⟩
+
+/-- And narrows to the intersection, Or widens to the duplicate-free union -/
+theorem C02_and_intersection {E : Env} {c : Coll} {l : Loaded} {field : String} {fi : FieldIdx} {op : Op} {probe : Leaf} {pv : Val}
+    (h : Inv' c l) (hi : l.index.field? field = some fi) (hr : pathResolvable c.live field = true)
+    (hp : E.prepare l.descs field probe = Leaf.v pv) (ht : pv.tag = fi.cast) (hop : op ≠ Op.re)
+    (s0 : Search) (he : s0.err = none) (hn : (s0.fields.map (·.snd)).Nodup) (u : Nat) :
+    Denotes l (Coll.searchAnd E c s0 field (some op) probe).snd.fields u ↔
+      Denotes l s0.fields u ∧ Matches c (fun _ => false) op fi.pos pv u :=
+  and_indexed_matches h hi hr hp ht hop s0 he hn u
+
+theorem C02_or_is_union {E : Env} {c : Coll} {l : Loaded} {field : String} {fi : FieldIdx} {op : Op} {probe : Leaf} {pv : Val}
+    (h : Inv' c l) (hi : l.index.field? field = some fi) (hr : pathResolvable c.live field = true)
+    (hp : E.prepare l.descs field probe = Leaf.v pv) (ht : pv.tag = fi.cast) (hop : op ≠ Op.re)
+    (s0 : Search) (he : s0.err = none) :
+    (Coll.searchOr E c s0 field (some op) probe).fst = c ∧
+    ((s0.fields.map (·.snd)).Nodup → ((Coll.searchOr E c s0 field (some op) probe).snd.fields.map (·.snd)).Nodup) ∧
+    ∀ u, Denotes l (Coll.searchOr E c s0 field (some op) probe).snd.fields u ↔
+      Matches c (fun _ => false) op fi.pos pv u ∨ Denotes l s0.fields u :=
+  let ⟨a, _, b, d⟩ := or_indexed_matches h hi hr hp ht hop s0 he
+  ⟨a, b, d⟩
+
+/-- deleting through a search removes exactly the designated objects -/
+theorem C02_search_delete {c : Coll} {l : Loaded} (h : Inv' c l) (s : Search) (he : s.err = none) :
+    ∃ c' l', c.searchDelete s = (c', Res.ok ()) ∧ Inv' c' l' ∧
+      c'.view = fun w => if w ∈ s.uuids l then none else c.view w :=
+  let ⟨c', l', a, b, d, _⟩ := searchDelete_spec h s he
+  ⟨c', l', a, b, d⟩
 
 end Sod.Props
